@@ -16,6 +16,42 @@ let z_of_int i = if i = 0 then Z0 else if i > 0 then Zpos (pos_of_int i) else Zn
 let rec int_of_pos = function XH -> 1 | XO p -> 2 * int_of_pos p | XI p -> 2 * int_of_pos p + 1
 let int_of_n = function N0 -> 0 | Npos p -> int_of_pos p
 let int_of_z = function Z0 -> 0 | Zpos p -> int_of_pos p | Zneg p -> - (int_of_pos p)
+(* decimal text of any size -> Z (times far in the future exceed OCaml's 63-bit int) *)
+let z_of_decimal (s : string) : z =
+  let neg = String.length s > 0 && s.[0] = '-' in
+  let digits = ref (List.map (fun c -> Char.code c - 48) (List.filter (fun c -> c >= '0' && c <= '9') (List.init (String.length s) (String.get s)))) in
+  (* repeated division by two of the digit list: least significant bit first *)
+  let bits = ref [] in
+  let is_zero l = List.for_all (fun d -> d = 0) l in
+  while not (is_zero !digits) do
+    let carry = ref 0 in
+    let q = List.map (fun d -> let v = !carry * 10 + d in carry := v land 1; v / 2) !digits in
+    bits := !carry :: !bits;
+    digits := q
+  done;
+  (* !bits is most significant first *)
+  match !bits with
+  | [] -> Z0
+  | _ :: rest ->
+      let p = List.fold_left (fun acc b -> if b = 1 then XI acc else XO acc) XH rest in
+      if neg then Zneg p else Zpos p
+let decimal_of_z (z : z) : string =
+  let rec bits = function XH -> [1] | XO p -> 0 :: bits p | XI p -> 1 :: bits p in      (* least significant first *)
+  let dec_of_pos p =
+    let msb_first = List.rev (bits p) in
+    (* digits least significant first *)
+    let step digits b =
+      let carry = ref b in
+      let d2 = List.map (fun d -> let v = 2 * d + !carry in carry := v / 10; v mod 10) digits in
+      if !carry > 0 then d2 @ [!carry] else d2 in
+    let digits = List.fold_left step [0] msb_first in
+    let str = String.concat "" (List.rev_map string_of_int digits) in
+    (* strip leading zeros *)
+    let n = String.length str in
+    let i = ref 0 in
+    while !i < n - 1 && str.[!i] = '0' do incr i done;
+    String.sub str !i (n - !i) in
+  match z with Z0 -> "0" | Zpos p -> dec_of_pos p | Zneg p -> "-" ^ dec_of_pos p
 let rec nat_of_int i = if i <= 0 then O else S (nat_of_int (i - 1))
 
 (* path <-> "a/b" text *)
@@ -35,7 +71,7 @@ let split c s = if s = "-" || s = "" then [] else String.split_on_char c s
 
 let rec parse_nodes toks acc = match toks with
   | "E" :: r -> (List.rev acc, r)
-  | "F" :: p :: mt :: d :: r -> parse_nodes r ((path_of_hex p, NFile (TSet (z_of_int (int_of_string mt)), unhex d)) :: acc)
+  | "F" :: p :: mt :: d :: r -> parse_nodes r ((path_of_hex p, NFile (TSet (z_of_decimal mt), unhex d)) :: acc)
   | "D" :: p :: r -> parse_nodes r ((path_of_hex p, NFolder) :: acc)
   | "L" :: p :: t :: k :: r -> parse_nodes r ((path_of_hex p, NLink (unhex t, kind_of k)) :: acc)
   | _ -> failwith "nodes"
@@ -49,7 +85,7 @@ let cmd_s = function
   | CSetRoot -> "SetRoot" | CGetEntries -> "GetEntries" | CCreateRootAncestors -> "Anc"
   | CGetFileContent p -> "Get:" ^ hex_of_path p
   | CCreateOrUpdateFile (p, d, mt, more) -> Printf.sprintf "W:%s:%d:%s:%d" (hex_of_path p) (List.length d)
-      (match mt with None -> "-" | Some t -> string_of_int (int_of_z t)) (if more then 1 else 0)
+      (match mt with None -> "-" | Some t -> decimal_of_z t) (if more then 1 else 0)
   | CCreateSymlink (p, k, t) -> Printf.sprintf "Lnk:%s:%s:%s" (hex_of_path p) (kind_s k) (target_s t)
   | CCreateFolder p -> "Mk:" ^ hex_of_path p
   | CDeleteFile p -> "RmF:" ^ hex_of_path p
@@ -62,14 +98,14 @@ let reason_s = function NotOnDest -> "notondest" | DestNewer -> "newer" | DestOl
 let prompt_s = function PRoot -> "R" | PDelete p -> "D:" ^ hex_of_path p | PCopy (p, r) -> "C:" ^ hex_of_path p ^ ":" ^ reason_s r
 let event_s = function Through q -> "T:" ^ hex_of_path q | CreatedAncestors -> "A"
 let entry_s = function
-  | EFile (mt, sz) -> Printf.sprintf "F:%d:%d" (int_of_z mt) (int_of_n sz)
+  | EFile (mt, sz) -> Printf.sprintf "F:%s:%d" (decimal_of_z mt) (int_of_n sz)
   | EFolder -> "D"
   | ESymlink (k, t) -> Printf.sprintf "L:%s:%s" (kind_s k) (target_s t)
 let would_s = function
   | WDelete (p, e) -> "del:" ^ hex_of_path p ^ ":" ^ (match e with EFile _ -> "file" | EFolder -> "folder" | ESymlink _ -> "symlink")
   | WCopyFile p -> "copy:" ^ hex_of_path p | WCreateFolder p -> "mkdir:" ^ hex_of_path p | WCreateSymlink p -> "mklink:" ^ hex_of_path p
 let node_s (p, n) = match n with
-  | NFile (TSet t, d) -> Printf.sprintf "F:%s:set:%d:%s" (hex_of_path p) (int_of_z t) (hex d)
+  | NFile (TSet t, d) -> Printf.sprintf "F:%s:set:%s:%s" (hex_of_path p) (decimal_of_z t) (hex d)
   | NFile (TNow k, d) -> Printf.sprintf "F:%s:now:%d:%s" (hex_of_path p) (int_of_n k) (hex d)
   | NFolder -> "D:" ^ hex_of_path p
   | NLink (t, k) -> Printf.sprintf "L:%s:%s:%s" (hex_of_path p) (hex t) (kind_s k)
